@@ -211,3 +211,16 @@ MUTANTS = [
     (CR.RFCH, "(n >> 6);", "(n >> 7);", "pow_nbin_mask_post.returns_exactly"),
     (CR.RFCH, "mai = (s + maio) % n;", "mai = (s + maio) % (n + 1);", "rfch_hop_seq_gen"),
 ]
+
+
+def FUZZ(seed, n=8):
+    """random inputs for the native replay (real code vs oracle); none may be `confirmed` on the unchanged tree"""
+    import random
+    rnd = random.Random(seed)
+    for k in range(n):
+        fn = rnd.randrange(G.HYPERFRAME)
+        hsn, maio, nn = rnd.randrange(64), rnd.randrange(64), rnd.randrange(1, 65)
+        yield {"func": "rfch_hop_seq_gen", "fn": fn, "hsn": hsn, "maio": maio, "n": nn, "arfcn_tbl.isnull": bool(k % 3 == 0)}
+        yield {"func": "rfch_get_params", "fn": fn, "dtype": rnd.choice([0, 1, 3]), "h": rnd.choice([0, 1]), "hsn": hsn, "maio": maio, "n": nn,
+               "h0_arfcn": rnd.randrange(1024), "serv_arfcn": rnd.randrange(1024)}
+        yield {"func": "pow_nbin_mask", "n": nn}
